@@ -319,3 +319,39 @@ def rule_epoch_representation(ctx, facts, rule):
             ctx.check(from_epoch and not casts, rule, fn.path, fn.loc(b), "%s.span_line_epoch is the scope's epoch, copied without a cast" % a.rsplit("::", 1)[1],
                       "", "origins %s casts %s" % (origin_strs(src), casts), extra="epoch-copy")
     ctx.floor(rule, "fastrace::local", n, 2, "handle constructions")
+
+
+HANDLE_OWNERS = {
+    # handle type -> the only functions that may move it out of its guard (each closes the scope afterwards: R2 'close' rules)
+    "fastrace::local::local_span::LocalSpanInner": {"<fastrace::local::local_span::LocalSpan as core::ops::drop::Drop>::drop"},
+    "fastrace::local::local_collector::LocalCollectorInner": {
+        "<fastrace::local::local_collector::LocalCollector as core::ops::drop::Drop>::drop",
+        "fastrace::local::local_collector::LocalCollector::collect_spans_and_token"},
+    "fastrace::span::LocalParentGuardInner": {"<fastrace::span::LocalParentGuard as core::ops::drop::Drop>::drop"},
+}
+
+
+def rule_handle_stays_in_guard(ctx, facts, rule):
+    """The value that closes a scope (exit_span / unregister) lives inside the guard whose Drop closes it. Moving it out
+    (Option::take, mem::take/replace/swap) anywhere but in that Drop (or the consuming collect) means an unwind -- e.g. a
+    panicking property closure -- drops a guard that is already empty, and the scope stays open."""
+    seen = {k: 0 for k in HANDLE_OWNERS}
+    for g in facts.fns.values():
+        if g.crate != "fastrace":
+            continue
+        for b in g.calls_re(r"Option::<T>::(take|replace|take_if)$|core::mem::(take|replace|swap)$", cleanup=True):
+            t = g.term(b)
+            for ty, allowed in HANDLE_OWNERS.items():
+                if ("Option<%s>" % ty) not in t["arg_tys"][0]:
+                    continue
+                seen[ty] += 1
+                host = re.sub(r"(::\{closure#\d+\})+$", "", g.path)
+                ctx.check(host in allowed, rule, g.path, g.loc(b),
+                          "the scope handle (%s) leaves its guard only in the guard's Drop / consuming collect" % ty.rsplit("::", 1)[1],
+                          "moved out in %s" % host,
+                          "%s moves the handle out of the guard: if anything between this point and putting it back unwinds "
+                          "(a caller-supplied closure that panics), the guard that is dropped is empty and the scope / span is "
+                          "never closed" % g.path, extra=ty.rsplit("::", 1)[1])
+    for ty, n in seen.items():
+        ctx.floor(rule, ty, n, len(HANDLE_OWNERS[ty]), "sites that move %s out of its guard" % ty.rsplit("::", 1)[1])
+
